@@ -237,6 +237,8 @@ where
 {
     let mut merged_dict = MergeSkaDict::new(k, total_size, rc);
     for (idx, (name, filename, second_file)) in input_files.iter().enumerate() {
+        #[cfg(feature = "verif-hooks")]
+        crate::verif_hooks::point("multi_append", (idx + offset) as u64);
         let ska_dict = SkaDict::new(
             k,
             idx + offset,
@@ -286,6 +288,8 @@ where
                 )
             },
         );
+        #[cfg(feature = "verif-hooks")]
+        crate::verif_hooks::point("parallel_merge", offset as u64);
         bottom_merge.merge(&mut top_merge);
         bottom_merge
     } else {
@@ -315,6 +319,8 @@ where
                 )
             },
         );
+        #[cfg(feature = "verif-hooks")]
+        crate::verif_hooks::point("parallel_merge", offset as u64);
         bottom_merge.merge(&mut top_merge);
         bottom_merge
     }
